@@ -15,6 +15,7 @@ from mc.engine import ok, bad, unspecified
 from mc.common import call, Raised, DimArray, Dataset, Axis, py, same_scalar, same_list
 
 ID = "C18"
+VARIANT_SWEEP = True      # thorough tier: every case on every history variant of its array (see mc/domains.py VSHIFT)
 TITLE = "interp_axis is per-fibre linear interpolation"
 RULE = ("product of (float/int arrays 1-4D, interpolated axis at every position, numeric labels increasing / decreasing / every shuffle of "
         "length 1-4, non-linear cell values) x (new coordinate vectors sorted and unsorted with points below / on / between / above the "
